@@ -258,6 +258,22 @@ func (rn *c19Renaming) eq(a, b interface{}, node *c19Node, path []string, where 
 		if rn.newC != "" && x == rn.oldC && y == rn.newC {
 			return "" // a call id that took the new callable name
 		}
+		// references spelled with a call id instead of a fully qualified id ("CALL.out.path")
+		if i := strings.IndexByte(x, '.'); i > 0 {
+			cid, rest := x[:i], x[i+1:]
+			if rn.newC != "" && cid == rn.oldC && y == rn.newC+"."+rest {
+				return ""
+			}
+			if rn.outOld != "" {
+				head, tail := rest, ""
+				if j := strings.IndexByte(rest, '.'); j >= 0 {
+					head, tail = rest[:j], rest[j:]
+				}
+				if head == rn.outOld && y == cid+"."+rn.outNew+tail {
+					return ""
+				}
+			}
+		}
 		return fmt.Sprintf("%s: %q vs %q", where, x, y)
 	case []interface{}:
 		y, ok := b.([]interface{})
@@ -469,12 +485,13 @@ func c19CompareRenamed(before, after *c19Node, e c19Edit) string {
 // `removedOut` output keys of the named callables may be missing; nothing
 // else may change.  allowNodeLoss: nodes may disappear (removeUnused calls).
 type c19Removal struct {
-	inOf       map[string]map[string]bool // callable -> removable input names ("*" = any, for pipelines' cascaded inputs)
-	outOf      map[string]map[string]bool
-	nodeLoss   bool
-	anyPipeIn  bool // inputs of pipeline nodes may disappear (cascade of no-longer-bound inputs)
-	anyPipeOut bool // outputs of non-top pipeline nodes may disappear (removeUnusedOutputs)
-	top        string
+	inOf        map[string]map[string]bool // callable -> removable input names ("*" = any, for pipelines' cascaded inputs)
+	outOf       map[string]map[string]bool
+	nodeLoss    bool
+	anyPipeIn   bool // inputs of pipeline nodes may disappear (cascade of no-longer-bound inputs)
+	anyPipeOut  bool // outputs of non-top pipeline nodes may disappear (removeUnusedOutputs)
+	top         string
+	ignoreForks bool // do not compare fork roots / pipeline output expressions (removeInput)
 }
 
 func c19CompareRemoved(before, after *c19Node, rm *c19Removal) string {
@@ -525,7 +542,7 @@ func c19CompareRemoved(before, after *c19Node, rm *c19Removal) string {
 		ao, _ := a.JSON["outputs"].(map[string]interface{})
 		if b.Stage {
 			// a stage's outputs are a reference to itself (absent when it has no outputs left)
-			if len(rm.outOf[b.Callable]) == 0 {
+			if len(rm.outOf[b.Callable]) == 0 && !rm.ignoreForks {
 				if d := c19JSONDiff(bo, ao, fq+".outputs"); d != "" {
 					return d
 				}
@@ -544,6 +561,9 @@ func c19CompareRemoved(before, after *c19Node, rm *c19Removal) string {
 					}
 					return fmt.Sprintf("%s: output %s disappeared", fq, k)
 				}
+				if rm.ignoreForks {
+					continue
+				}
 				if d := c19JSONDiff(bv, av, fq+".outputs."+k); d != "" {
 					return d
 				}
@@ -555,6 +575,9 @@ func c19CompareRemoved(before, after *c19Node, rm *c19Removal) string {
 			}
 		}
 		for _, k := range []string{"disabled", "fork_roots", "retained", "comments"} {
+			if rm.ignoreForks && k == "fork_roots" {
+				continue
+			}
 			if d := c19JSONDiff(b.JSON[k], a.JSON[k], fq+"."+k); d != "" {
 				return d
 			}
